@@ -549,7 +549,12 @@ def check(pid, tier, seed):
     if ok_h and cfg.get("needs_tables", False):
         gen_tables()
 
-    # 3. proofs
+    # 3. proofs (some obligations are regenerated from the source first)
+    if cfg.get("pre"):
+        try:
+            cfg["pre"]()
+        except Exception as e:
+            notes.append("pre-step failed: %r" % (e,))
     proof = proof_stage(pid, cfg)
 
     # 4. model driver
@@ -777,6 +782,7 @@ def setup():
         gen_tables()
     with Lock("coq"):
         ensure_makefile()
+    sh([sys.executable, os.path.join(ROOT, "lib", "gen_uidops.py")])
     # clean full build of the development
     sh(["make", "clean"], cwd=COQ)
     for f in glob.glob(os.path.join(COQ, "**", "*.vo*"), recursive=True) + glob.glob(os.path.join(COQ, "**", "*.glob"), recursive=True):
